@@ -236,3 +236,17 @@ def within_miu(p, miu_size, icv_size):
     if len(p) <= 3:
         return True
     return len(p) + icv_of(p, icv_size) - p.header_size <= miu_size
+
+
+def tlv_numeric(t, raw):
+    """LLCP 1.3 section 4.5: value of the numeric parameters as the receiver must use them, from the value octets
+    `raw` (big endian): VERSION 8 bit, MIUX the 11 least significant bits (the others are reserved and ignored),
+    WKS 16 bit, LTO 8 bit, RW the 4 least significant bits, OPT the 3 least significant bits (LSC, DPC)"""
+    n = raw[0] if len(raw) == 1 else raw[0] * 256 + raw[1]
+    if t == 2:
+        return n % 2048
+    if t == 5:
+        return n % 16
+    if t == 7:
+        return n % 8
+    return n
